@@ -12,7 +12,7 @@ META = {
     "level": "proof",
     "technique": "Coq theorems over a model of every order-sensitive step of the generators (map ranges as arbitrary permutations, unstable sorts as arbitrary sorted permutations): the tables handed to the templates are the same for all iteration orders and sort outcomes; byte identity of the written files across runs, processes and pre-existing outputs is carried by a hash farm: each definition generated repeatedly in one process (the generators' own packages driven exactly like their main()) and in separate processes (the real CLIs), alternating fresh and already-generated package states, SHA-256 compared; the gsort block order is also judged against the model inside Coq",
     "design_ref": "DESIGN.md §4 C14",
-    "level_text": "Proof (partial for the byte-level clause): GenDetProofs.v shows that for ALL map iteration orders and ALL outcomes of the unstable sorts the generators' tables are equal: gsort descs (C14_gsort: ties of the (type, sorter) key only between equal descs), genum duplicate-group deletions commute and traits/values/instances sort uniquely (C14_genum_*), ImportHandler.GetActive (C14_imports, with the path-key invariant proved for calcImports/addNamed), gerror fields (C14_gerror*), first-match map lookups (C14_lookup_first). That the written FILES are byte-identical across runs/processes/pre-existing outputs is runtime behaviour of templates, gofmt, goimports and the OS: it is exercised, not proved, by the hash farm.",
+    "level_text": "Proof (partial for the byte-level clause): GenDetProofs.v shows that for ALL map iteration orders and ALL outcomes of the unstable sorts the generators' tables are equal: gsort descs (C14_gsort: ties of the (type, sorter) key only between equal descs), genum duplicate-group deletions commute and traits/values/instances sort uniquely (C14_genum_*), ImportHandler.GetActive (C14_imports, with the path-key invariant proved for calcImports/addNamed), gerror fields (C14_gerror*), first-match map lookups (C14_lookup_first). That the written FILES are byte-identical across runs/processes/pre-existing outputs is runtime behaviour of templates, gofmt, goimports and the OS: it is exercised, not proved, by the hash farm. The farm's in-process histories include Parse + Write run twice on ONE options holder (every third step) and a definition importing one package under two names.",
     "level_note": "Trusted: Coq 8.16.1 kernel + vm_compute; the model's fidelity (checked by reading and, for gsort, by the block-order tie); sort.Sort/sort.Slice return sorted permutations; text/template, go/format, x/tools/imports, packages.Load are deterministic functions of their inputs (exercised by the farm); distinct-key hypotheses of the theorems are guaranteed by Go itself (constant, field and trait-method names are unique per scope; a type name denotes one struct). No axioms.",
 }
 
